@@ -82,10 +82,12 @@ Definition at_write_h (h : nat) (x : sender) : bool :=
 (* The part of a state the invariants talk about, and the steps seen on it   *)
 (* ---------------------------------------------------------------------- *)
 Record ast := mkA { a_hs : hmap; a_snd : list sender; a_lst : list nat; a_efd : Z;
-                    a_pc : lpc; a_q : list nat; a_incb : bool }.
+                    a_pc : lpc; a_q : list nat; a_incb : bool;
+                    a_cl : list nat (* closing_handles ++ handles whose close_cb has run *) }.
 
 Definition view (s : state) : ast :=
-  mkA (hs s) (snd s) (lst s) (efd s) (l_pc (lp s)) (l_queue (lp s)) (l_incb (lp s)).
+  mkA (hs s) (snd s) (lst s) (efd s) (l_pc (lp s)) (l_queue (lp s)) (l_incb (lp s))
+      (l_closing (lp s) ++ l_closed (lp s)).
 
 (* program counters at which an iteration of uv_run leaves the loop thread *)
 Definition rest_pc (p : lpc) : Prop := p = LTop \/ exists nb, p = LPoll nb.
@@ -112,58 +114,59 @@ Inductive astep (a : ast) : ast -> Prop :=
 | AS_pub i x h r :
     nth_error (a_snd a) i = Some x -> s_pc x = SIdle -> s_script x = h :: r ->
     astep a (mkA (hupd (a_hs a) h publish) (snd_to a i (mkS (SPub h) r))
-                 (a_lst a) (a_efd a) (a_pc a) (a_q a) (a_incb a))
+                 (a_lst a) (a_efd a) (a_pc a) (a_q a) (a_incb a) (a_cl a))
 | AS_ret i x h :
     nth_error (a_snd a) i = Some x -> s_pc x = SPub h -> pending (a_hs a h) = true ->
     astep a (mkA (a_hs a) (snd_to a i (mkS SIdle (s_script x)))
-                 (a_lst a) (a_efd a) (a_pc a) (a_q a) (a_incb a))
+                 (a_lst a) (a_efd a) (a_pc a) (a_q a) (a_incb a) (a_cl a))
 | AS_load i x h :
     nth_error (a_snd a) i = Some x -> s_pc x = SPub h -> pending (a_hs a h) = false ->
     astep a (mkA (a_hs a) (snd_to a i (mkS (SLoaded h) (s_script x)))
-                 (a_lst a) (a_efd a) (a_pc a) (a_q a) (a_incb a))
+                 (a_lst a) (a_efd a) (a_pc a) (a_q a) (a_incb a) (a_cl a))
 | AS_inc i x h :
     nth_error (a_snd a) i = Some x -> s_pc x = SLoaded h ->
     astep a (mkA (hupd (a_hs a) h (add_busy 1)) (snd_to a i (mkS (SBusy h) (s_script x)))
-                 (a_lst a) (a_efd a) (a_pc a) (a_q a) (a_incb a))
+                 (a_lst a) (a_efd a) (a_pc a) (a_q a) (a_incb a) (a_cl a))
 | AS_xchg i x h :
     nth_error (a_snd a) i = Some x -> s_pc x = SBusy h ->
     astep a (mkA (hupd (a_hs a) h (set_pending true))
                  (snd_to a i (mkS (if pending (a_hs a h) then SDec h else SWrite h) (s_script x)))
-                 (a_lst a) (a_efd a) (a_pc a) (a_q a) (a_incb a))
+                 (a_lst a) (a_efd a) (a_pc a) (a_q a) (a_incb a) (a_cl a))
 | AS_write i x h :
     nth_error (a_snd a) i = Some x -> s_pc x = SWrite h ->
     astep a (mkA (a_hs a) (snd_to a i (mkS (SDec h) (s_script x)))
                  (a_lst a) (if a_efd a <? efd_max then a_efd a + 1 else a_efd a)
-                 (a_pc a) (a_q a) (a_incb a))
+                 (a_pc a) (a_q a) (a_incb a) (a_cl a))
 | AS_dec i x h :
     nth_error (a_snd a) i = Some x -> s_pc x = SDec h ->
     astep a (mkA (hupd (a_hs a) h (add_busy (-1))) (snd_to a i (mkS SIdle (s_script x)))
-                 (a_lst a) (a_efd a) (a_pc a) (a_q a) (a_incb a))
+                 (a_lst a) (a_efd a) (a_pc a) (a_q a) (a_incb a) (a_cl a))
 | AL_pc p :
     pc_move (a_q a) (a_pc a) p ->
-    astep a (mkA (a_hs a) (a_snd a) (a_lst a) (a_efd a) p (a_q a) (a_incb a))
+    astep a (mkA (a_hs a) (a_snd a) (a_lst a) (a_efd a) p (a_q a) (a_incb a) (a_cl a))
 | AL_drain p :
     a_pc a = LDrain -> after_scan (a_lst a) p ->
-    astep a (mkA (a_hs a) (a_snd a) [] 0 p (a_lst a) (a_incb a))
+    astep a (mkA (a_hs a) (a_snd a) [] 0 p (a_lst a) (a_incb a) (a_cl a))
 | AL_hit h r :
     a_pc a = LScan -> a_q a = h :: r -> pending (a_hs a h) = true ->
     astep a (mkA (hupd (a_hs a) h (set_pending false)) (a_snd a) (a_lst a ++ [h]) (a_efd a)
-                 (LCall h) r (a_incb a))
+                 (LCall h) r (a_incb a) (a_cl a))
 | AL_miss h r p :
     a_pc a = LScan -> a_q a = h :: r -> pending (a_hs a h) = false -> after_scan r p ->
     astep a (mkA (hupd (a_hs a) h (set_pending false)) (a_snd a) (a_lst a ++ [h]) (a_efd a)
-                 p r (a_incb a))
+                 p r (a_incb a) (a_cl a))
 | AL_call h :
     a_pc a = LCall h ->
-    astep a (mkA (hupd (a_hs a) h run_cb) (a_snd a) (a_lst a) (a_efd a) LInCb (a_q a) (a_incb a))
+    astep a (mkA (hupd (a_hs a) h run_cb) (a_snd a) (a_lst a) (a_efd a) LInCb (a_q a) (a_incb a) (a_cl a))
 | AL_close c b :
     (a_pc a = LTop /\ b = false) \/ (a_pc a = LInCb /\ b = true) ->
     is_open (a_hs a c) = true ->
-    astep a (mkA (hupd (a_hs a) c begin_close) (a_snd a) (a_lst a) (a_efd a) (LSpin0 c) (a_q a) b)
+    astep a (mkA (hupd (a_hs a) c begin_close) (a_snd a) (a_lst a) (a_efd a) (LSpin0 c) (a_q a) b (a_cl a))
 | AL_unlink c :
     a_pc a = LSpin0 c \/ a_pc a = LSpin c -> busy (a_hs a c) = 0 ->
     astep a (mkA (hupd (a_hs a) c set_unl) (a_snd a) (remove_h c (a_lst a)) (a_efd a)
-                 (if a_incb a then LInCb else LTop) (remove_h c (a_q a)) (a_incb a)).
+                 (if a_incb a then LInCb else LTop) (remove_h c (a_q a)) (a_incb a)
+                 (c :: a_cl a)).
 
 
 (* ---------------------------------------------------------------------- *)
@@ -207,7 +210,8 @@ Lemma rest_poll nb : rest_pc (LPoll nb). Proof. right; eexists; reflexivity. Qed
 (* the program counter finish_iter leaves *)
 Lemma finish_iter_view s :
   exists p, rest_pc p /\
-    view (finish_iter s) = mkA (hs s) (snd s) (lst s) (efd s) p (l_queue (lp s)) (l_incb (lp s)).
+    view (finish_iter s) = mkA (hs s) (snd s) (lst s) (efd s) p (l_queue (lp s)) (l_incb (lp s))
+                               (l_closing (lp s) ++ l_closed (lp s)).
 Proof.
   unfold finish_iter. cbv zeta.
   destruct (l_mode (lp (run_closing s)) && alive (run_closing s)).
@@ -217,7 +221,8 @@ Qed.
 
 Lemma scan_next_view s :
   exists p, after_scan (l_queue (lp s)) p /\
-    view (scan_next true s) = mkA (hs s) (snd s) (lst s) (efd s) p (l_queue (lp s)) (l_incb (lp s)).
+    view (scan_next true s) = mkA (hs s) (snd s) (lst s) (efd s) p (l_queue (lp s)) (l_incb (lp s))
+                                 (l_closing (lp s) ++ l_closed (lp s)).
 Proof.
   unfold scan_next. destruct (l_queue (lp s)) eqn:E.
   - destruct (finish_iter_view s) as (p & Hp & Hv). exists p. split; [left; auto|].
@@ -225,14 +230,16 @@ Proof.
   - exists LScan. split; [right; split; [discriminate|reflexivity]|]. simp. rewrite E. reflexivity.
 Qed.
 
-Lemma view_eta s : view s = mkA (hs s) (snd s) (lst s) (efd s) (l_pc (lp s)) (l_queue (lp s)) (l_incb (lp s)).
+Lemma view_eta s : view s = mkA (hs s) (snd s) (lst s) (efd s) (l_pc (lp s)) (l_queue (lp s)) (l_incb (lp s))
+                               (l_closing (lp s) ++ l_closed (lp s)).
 Proof. reflexivity. Qed.
 
 Ltac pcmove := apply AL_pc; cbn [a_pc a_q view];
   repeat match goal with H : l_pc _ = _ |- _ => rewrite H end.
 
 Lemma close_begin_astep s s1 h b :
-  view s1 = mkA (hs s) (snd s) (lst s) (efd s) (l_pc (lp s)) (l_queue (lp s)) (l_incb (lp s)) ->
+  view s1 = mkA (hs s) (snd s) (lst s) (efd s) (l_pc (lp s)) (l_queue (lp s)) (l_incb (lp s))
+                (l_closing (lp s) ++ l_closed (lp s)) ->
   (l_pc (lp s) = LTop /\ b = false) \/ (l_pc (lp s) = LInCb /\ b = true) ->
   astep (view s) (view (close_begin s1 h b)).
 Proof.
@@ -242,7 +249,8 @@ Proof.
   - rewrite Hhs in Eo. simp.
     pose proof (f_equal a_snd Hv) as H2; pose proof (f_equal a_lst Hv) as H3;
     pose proof (f_equal a_efd Hv) as H4; pose proof (f_equal a_q Hv) as H5.
-    cbn in H2, H3, H4, H5. rewrite Hhs, H2, H3, H4, H5.
+    pose proof (f_equal a_cl Hv) as H6.
+    cbn in H2, H3, H4, H5, H6. rewrite Hhs, H2, H3, H4, H5, H6.
     apply (AL_close (view s) h b); auto.
   - rewrite Hv. pcmove. destruct Hpc as [[-> _]|[-> _]]; constructor.
 Qed.
@@ -250,12 +258,14 @@ Qed.
 Lemma spin_exit_view s h : (busy (hs s h) =? 0) = true ->
   view (spin_step s h) =
   mkA (hupd (hs s) h set_unl) (snd s) (remove_h h (lst s)) (efd s)
-      (if l_incb (lp s) then LInCb else LTop) (remove_h h (l_queue (lp s))) (l_incb (lp s)).
+      (if l_incb (lp s) then LInCb else LTop) (remove_h h (l_queue (lp s))) (l_incb (lp s))
+      (h :: l_closing (lp s) ++ l_closed (lp s)).
 Proof. intros H. unfold spin_step. rewrite H. reflexivity. Qed.
 
 Lemma spin_stay_view s h : (busy (hs s h) =? 0) = false ->
   view (spin_step s h) =
-  mkA (hs s) (snd s) (lst s) (efd s) (LSpin h) (l_queue (lp s)) (l_incb (lp s)).
+  mkA (hs s) (snd s) (lst s) (efd s) (LSpin h) (l_queue (lp s)) (l_incb (lp s))
+      (l_closing (lp s) ++ l_closed (lp s)).
 Proof. intros H. unfold spin_step. rewrite H. reflexivity. Qed.
 
 Lemma step_astep s t s' : step s t = Some s' -> astep (view s) (view s').
@@ -322,6 +332,8 @@ Record AInv (a : ast) : Prop := mkAInv {
   i_spin : forall h, aspin h a -> ~ aopn a h;
   i_unl : forall h, unl (a_hs a h) = true -> ~ aopn a h /\ cnt (at_write_h h) (a_snd a) = 0;
   i_seen : forall h, seen (a_hs a h) <= published (a_hs a h);
+  (* close_cb only for handles uv__async_close has finished with *)
+  i_cl : forall h, In h (a_cl a) -> unl (a_hs a h) = true;
   (* the wake invariant *)
   i_wake : forall h, aopn a h -> pending (a_hs a h) = true ->
            0 < a_efd a \/ 0 < cnt at_write (a_snd a) \/ In h (a_q a);
@@ -345,7 +357,7 @@ Ltac cntsimp :=
   unfold in_cs, pre_set, at_write, at_write_h in *; cbn [s_pc];
   repeat match goal with H : s_pc _ = _ |- _ => rewrite H end.
 
-Ltac acbn := cbn [a_hs a_snd a_lst a_efd a_pc a_q a_incb] in *.
+Ltac acbn := cbn [a_hs a_snd a_lst a_efd a_pc a_q a_incb a_cl] in *.
 
 
 (* ---------------------------------------------------------------------- *)
@@ -616,6 +628,13 @@ Proof.
   - destruct H as [Hp|Hp]; rewrite Hp in Hb; destruct (a_incb a); exact Hb.
 Qed.
 
+Lemma pres_cl a a' : AInv a -> astep a a' -> forall h, In h (a_cl a') -> unl (a_hs a' h) = true.
+Proof.
+  intros I St k. pose proof (i_cl _ I k) as Hb.
+  destruct St; acbn; try exact Hb; hupd_cases; auto.
+  intros [Hc|Hin]; [congruence|auto].
+Qed.
+
 Lemma astep_inv a a' : AInv a -> astep a a' -> AInv a'.
 Proof.
   intros I St. constructor.
@@ -629,6 +648,7 @@ Proof.
   - eapply pres_spin; eauto.
   - eapply pres_unl; eauto.
   - eapply pres_seen; eauto.
+  - eapply pres_cl; eauto.
   - eapply pres_wake; eauto.
   - eapply pres_owed; eauto.
   - eapply pres_paid; eauto.
@@ -834,6 +854,13 @@ Proof.
   - apply (i_n2 _ I h Hno).
   - intros i x Hn Hx. cbn in Hc. pose proof (cnt_zero_all _ _ _ _ Hc Hn) as Hz.
     unfold at_write_h in Hz. rewrite Hx, Nat.eqb_refl in Hz. discriminate.
+Qed.
+
+(* close_cb(h) runs only after uv_close(h) has returned *)
+Lemma close_cb_after_close s : Inv s -> forall h,
+  In h (l_closing (lp s)) \/ In h (l_closed (lp s)) -> unl (hs s h) = true.
+Proof.
+  intros I h Hin. apply (i_cl _ I h). cbn. apply in_or_app. exact Hin.
 Qed.
 
 Lemma astep_unl_stable a a' h : astep a a' -> unl (a_hs a h) = true -> unl (a_hs a' h) = true.
